@@ -4,10 +4,14 @@ Line-protocol driver: one request per line on stdin, one response per line on st
 -/
 import SpiceEv.Wire
 import SpiceEv.Cmd.Curve
+import SpiceEv.Cmd.ScenarioRun
+import SpiceEv.Cmd.StrategyUtil
 open SpiceEv
 
 def allHandlers : List (String × Handler) :=
   Cmd.Curve.handlers
+  ++ Cmd.ScenarioRun.handlers
+  ++ Cmd.StrategyUtil.handlers
 
 def handle (line : String) : String :=
   match (line.splitOn " ").filter (· ≠ "") with
